@@ -38,9 +38,9 @@ under which the functional reading is what Python does; where the condition is n
   `R := setattr(R, F, setitem(R.F, I, H))`, so that every later read of `R` (the `return R`) sees the mutation, as in
   Python.
 
-* `N.m(a…)` as a statement, `N` a fresh object or a place alias, `m` ∈ insert / extend / append: decided by the class of `N`
-  at run time — a `Tag` goes to the translated `Tag.m` (which returns the new `N`), any other class is outside the
-  fragment (`unsupported`).
+* `N.m(a…)` as a statement, `N` a fresh object or a place alias, `m` ∈ insert / extend / append: resolved to the translated
+  `Tag.m` (which returns the new `N`); a receiver of any other class is outside the fragment (`pyRecvOfClassC11`:
+  `unsupported`).
 
 * `N.attrs.update(**E)` as a statement: accepted when the statement immediately before it (same block) is
   `N = <expr>.tagify()` — `Tag.tagify` returns a copy, whose `attrs` is a new dict (assumption on `copy` above), so the
@@ -530,7 +530,23 @@ def expr_hook(fn, e):
             if info is None or not info.available:
                 raise T.Untranslatable(f"method {cls}.tagify is not translated")
             arms.append(f'| "{cls}" => (do pure {fn.call_known(info, [], [], recv=recv)})')
-        return f"(← match pyClassOf {recv} with " + " ".join(arms) + f" | _ => pyTagifyObj {recv})"
+        return f"(← (match pyClassOf {recv} with " + " ".join(arms) + f" | _ => (do pyTagifyObj {recv})))"
+    if f.attr in T.DISPATCH:
+        # as the base translator does, but as a *term* (parenthesised): a `match` directly after `←` is a do-`match`, whose
+        # continuation becomes a join point that every later rewriting step copies into each arm
+        recv = fn.V(f.value)
+        arms = []
+        for cls in T.DISPATCH[f.attr]:
+            info = find_info(fn, f"{cls}.{f.attr}")
+            if info is None or not info.available:
+                raise T.Untranslatable(f"method {cls}.{f.attr} is not translated")
+            if has_star(e):
+                raise T.Untranslatable(f"star arguments in a call of .{f.attr}()")
+            try:
+                arms.append(f'| "{cls}" => (do pure {fn.call_known(info, e.args, e.keywords, recv=recv)})')
+            except T.ArityMismatch:
+                arms.append(f'| "{cls}" => throw PyErr.typeError')
+        return f"(← (match pyClassOf {recv} with " + " ".join(arms) + " | _ => throw PyErr.attributeError))"
     if f.attr == "render":
         if e.args or e.keywords:
             raise T.Untranslatable("render() with arguments")
@@ -538,8 +554,8 @@ def expr_hook(fn, e):
         info = find_info(fn, "Tag.render")
         if info is None or not info.available:
             raise T.Untranslatable("method Tag.render is not translated")
-        return (f'(← match pyClassOf {recv} with | "Tag" => (do pure {fn.call_known(info, [], [], recv=recv)}) '
-                f"| _ => throw PyErr.unsupported)")
+        return (f'(← (match pyClassOf {recv} with | "Tag" => (do pure {fn.call_known(info, [], [], recv=recv)}) '
+                f"| _ => throw PyErr.unsupported))")
     if f.attr == "as_html_tags":
         kw = {k.arg: k.value for k in e.keywords}
         if e.args or set(kw) != {"lib_prefix", "include_version"} or len(e.keywords) != 2:
@@ -740,8 +756,11 @@ def stmt_hook(fn, ind, s):
         N = fn.name(n)
         if has_star(c):
             raise T.Untranslatable("star arguments in a mutator call on a local")
-        call = fn.call_known(info, c.args, c.keywords, recv=N)
-        fn.emit(ind, f'{N} := (← match pyClassOf {N} with | "Tag" => (do pure {call}) | _ => throw PyErr.unsupported)')
+        # the method is resolved statically to `Tag.m`; a receiver of another class is outside the fragment
+        rv = fn.fresh("recv")
+        fn.emit(ind, f'let {rv} ← pyRecvOfClassC11 {N} "Tag"')
+        call = fn.call_known(info, c.args, c.keywords, recv=rv)
+        fn.emit(ind, f"{N} := {call}")
         if n in a.alias:
             write_back(fn, ind, n)
         return True
